@@ -123,7 +123,11 @@ def port_events(info, pname):
 
 
 def gen_args(rng, ev):
-    return [str(rng.choice([0, 1, 2, 5, 7, 42])) for _ in ev['formals']]
+    # formals whose C++ type is wider than int also get values that do not fit an int: a forwarding
+    # lambda typed by the wrong (narrower) extern then visibly damages the argument
+    small = [0, 1, 2, 5, 7, 42]
+    wide = small + [4294967301, 1099511627783]
+    return [str(rng.choice(small if f.get('_ctype', 'int') == 'int' else wide)) for f in ev['formals']]
 
 
 def reply_range(ev):
